@@ -38,6 +38,16 @@ CHECKS = {
         "technique": SIM + "probe listeners snapshot the cache inside callbacks; compared per datagram with ModelCache",
         "design_ref": "DESIGN.md §5 C06",
     },
+    "C10": {
+        "text": "Seeded search over pointer-record histories (TTL 1125..9000 s learned in any order, refreshed, re-cased, "
+                "withdrawn or abandoned) across up to 3 h of virtual time on a real instance with 1..2 browsers "
+                "(delay 1..60 s); the query trace is judged against the per-host reference cache: start-up schedule, "
+                "minimum spacing, justification of every refresh query, and bounded liveness of the 75 %/10 % refresh "
+                "chain for every record left to expire. Exploration over histories x schedules; three scheduler defects "
+                "were found this way and repaired.",
+        "technique": SIM + "interval oracles on the query trace against ModelCache, hours of virtual time per run",
+        "design_ref": "DESIGN.md §5 C10",
+    },
     "C05": {
         "text": "Seeded search over response-datagram histories (repeats, refreshes, goodbyes, cache-flush, re-cased names) "
                 "and clock steps around the 1 s flush window, TTL expiry and the 10 s purge, driven through the real "
